@@ -492,7 +492,7 @@ impl CommandHub {
                 })
                 .collect();
 
-            let next_timeout = self.tasks.values().filter_map(|t| t.timeout).max();
+            let next_timeout = self.tasks.values().filter_map(|t| t.timeout).min();
             let mut poll_timeout = next_timeout.map(|t| t.saturating_duration_since(now));
 
             if self.run_state == ServerState::Stopping {
